@@ -556,6 +556,19 @@ def check_e(ck, repo):
                 ix = ex.norm_expr(st.targets[0].slice, fn, st)
                 ok = isinstance(ix, ast.Call) and isinstance(ix.func, ast.Name) and ix.func.id == "__it__" and "'idx'" in ast.unparse(ix.args[1]) and subst(ast.unparse(ix.args[0])) == rows
             ck.verdict(ok, "C08.e", fn, st, "row i gets the bucket of its own key", "the bucket looked up for a row's key is not stored at that row's position")
+    # ---- a selection kept as positions is empty when it has no element, not when none is "true"
+    all_fns_ = [f_ for f_ in repo.all_functions.values() if getattr(f_, "module", None) is mt.module]
+    for fn in all_fns_:
+        for d_ in own_nodes(fn.node):
+            if isinstance(d_, ast.Assign) and len(d_.targets) == 1 and isinstance(d_.targets[0], ast.Name):
+                tv_ = src_of(d_.value).replace(" ", "")
+                if tv_.endswith(".nonzero()[0]") or tv_.startswith(("numpy.flatnonzero(", "numpy.where(", "numpy.nonzero(", "numpy.argwhere(")):
+                    nm_ = d_.targets[0].id
+                    for t_ in own_nodes(fn.node):
+                        if isinstance(t_, (ast.If, ast.While, ast.IfExp)):
+                            tt_ = src_of(t_.test).replace(" ", "")
+                            if f"numpy.any({nm_})" in tt_ or f"{nm_}.any()" in tt_ or f"numpy.all({nm_})" in tt_:
+                                ck.violated("C08.e", fn, t_ if isinstance(t_, ast.stmt) else stmt_of(t_), f"`{src_of(t_.test)[:50]}` is asked of {nm_}, which holds row POSITIONS ({src_of(d_.value)[:50]}): position 0 is false, so a bucket whose only row is the first of the batch is taken for empty and that row is answered by the fallback model")
     # ---- tree binner: same leaf membership, leaf id is the mapping key
     masks = {}
     for fn in (mt, tb):
@@ -572,6 +585,33 @@ def check_e(ck, repo):
         ck.unknown("C08.e", tb, "leaf membership masks", f"found in {sorted(masks)}")
     else:
         (s1, m1, l1, v1), (s2, m2, l2, v2) = masks["_mapping_train"], masks["transform_bins"]
+        def _core(m_):
+            """the comparison that decides membership, without the conversion of its result into a
+            dense mask or into the positions of its true entries (both select the same rows)"""
+            t_ = m_
+            for _ in range(6):
+                t0 = t_
+                for pre_, suf_ in (("numpy.asarray(", ").flatten()"), ("numpy.asarray(", ").ravel()"), ("numpy.asarray(", ")"), ("numpy.flatnonzero(", ")"), ("numpy.where(", ")[0]"), ("numpy.nonzero(", ")[0]"), ("(", ")")):
+                    if t_.startswith(pre_) and t_.endswith(suf_) and len(t_) > len(pre_) + len(suf_):
+                        inner = t_[len(pre_) : len(t_) - len(suf_)]
+                        depth_, okn_ = 0, True
+                        for ch_ in inner:
+                            depth_ += ch_ == "("
+                            depth_ -= ch_ == ")"
+                            if depth_ < 0:
+                                okn_ = False
+                                break
+                        if okn_ and depth_ == 0:
+                            t_ = inner
+                for suf_ in (".todense()", ".toarray()", ".nonzero()[0]", ".A", ".A1", ".ravel()", ".flatten()"):
+                    if t_.endswith(suf_):
+                        t_ = t_[: -len(suf_)]
+                if t_ == t0:
+                    break
+            return t_
+
+        if m1 != m2 and _core(m1) == _core(m2):
+            m1 = m2 = _core(m1)
         ck.verdict(m1 == m2 and "self.binner_.decision_path(X)" in m1, "C08.e", tb, f"leaf mask {m2[:70]}", "leaf membership is decided by the same expression of the fitted binner's decision path at fit and predict", f"fit selects a leaf's rows with {m1} but predict with {m2}")
         ck.verdict(l2 == "self.leaves_", "C08.e", tb, f"predict enumerates {l2}", "predict enumerates the leaves stored at fit", "predict does not enumerate self.leaves_")
         # predict: association[mask] = self.mapping_.get(<leaf>, -1)
